@@ -218,7 +218,7 @@ func runC15(c *Ctx) {
 						return true
 					}
 					if id, isID := n.(*ast.Ident); isID {
-						if o, isF := info.Uses[id].(*eng.TFunc); isF && eng.Short(o.FullName()) == fn {
+						if o, isF := info.Uses[id].(*eng.TFunc); isF && eng.CanonFunc(eng.Short(o.FullName())) == fn {
 							found = true
 						}
 					}
@@ -304,7 +304,7 @@ func runC15(c *Ctx) {
 				for _, as := range assignsTo(l, func(e ast.Expr) bool { return true }) {
 					if s, ok := eng.Unparen(as.Lhs[0]).(*ast.SelectorExpr); ok {
 						if app, isApp := eng.IsCallTo(l.Info(), as.Rhs[0], "builtin.append"); isApp && eng.SameExpr(l.Info(), app.Args[0], as.Lhs[0]) {
-							got[s.Sel.Name] = true
+							got[eng.NameOf(s.Sel)] = true
 						}
 					}
 				}
@@ -321,7 +321,7 @@ func runC15(c *Ctx) {
 			ok := false
 			for _, l := range g.Lits {
 				for _, as := range assignsTo(l, func(e ast.Expr) bool { return true }) {
-					if s, isSel := eng.Unparen(as.Lhs[0]).(*ast.SelectorExpr); isSel && s.Sel.Name == fld && eng.IsObj(l.Info(), as.Rhs[0], g.Info().Defs[g.Type.Params.List[0].Names[0]]) {
+					if s, isSel := eng.Unparen(as.Lhs[0]).(*ast.SelectorExpr); isSel && eng.NameOf(s.Sel) == fld && eng.IsObj(l.Info(), as.Rhs[0], g.Info().Defs[g.Type.Params.List[0].Names[0]]) {
 						ok = true
 					}
 				}
@@ -342,13 +342,13 @@ func runC15(c *Ctx) {
 				return true
 			}
 			_ = minfo
-			switch id.Name {
+			switch eng.NameOf(id) {
 			case "queryPeerFilter":
-				wired[id.Name] = s.Sel.Name == "QueryPeerFilter"
+				wired[eng.NameOf(id)] = eng.NameOf(s.Sel) == "QueryPeerFilter"
 			case "routingTablePeerFilter":
-				wired[id.Name] = s.Sel.Name == "PeerFilter"
+				wired[eng.NameOf(id)] = eng.NameOf(s.Sel) == "PeerFilter"
 			case "addrFilter":
-				wired[id.Name] = s.Sel.Name == "AddressFilter"
+				wired[eng.NameOf(id)] = eng.NameOf(s.Sel) == "AddressFilter"
 			}
 			return true
 		})
@@ -439,18 +439,63 @@ func runC15(c *Ctx) {
 			}
 		}
 		// union of addresses: both lists feed the result on the combine branch, and each alone when the other is empty
+		var wanInfo, lanInfo eng.Object
+		for _, s := range f.CallsDeep("(*dht.IpfsDHT).FindPeer") {
+			if as, ok := p.Parent(s.Node).(*ast.AssignStmt); ok && len(as.Lhs) == 2 {
+				sel := eng.Unparen(s.Call().Fun).(*ast.SelectorExpr)
+				if eng.IsField(s.F.Info(), sel.X, "dht/dual.DHT.WAN") {
+					wanInfo = eng.ObjOf(s.F.Info(), as.Lhs[0])
+				} else if eng.IsField(s.F.Info(), sel.X, "dht/dual.DHT.LAN") {
+					lanInfo = eng.ObjOf(s.F.Info(), as.Lhs[0])
+				}
+			}
+		}
+		c.Anchor(wanInfo != nil && lanInfo != nil, "dual.FindPeer: inner address results not found")
+		addrsOf := func(obj eng.Object) func(ast.Expr) bool {
+			return func(e ast.Expr) bool {
+				s, ok := eng.Unparen(e).(*ast.SelectorExpr)
+				return ok && eng.IsField(info, s, "github.com/libp2p/go-libp2p/core/peer.AddrInfo.Addrs") && eng.IsObj(info, s.X, obj)
+			}
+		}
 		uses := map[string]int{}
 		f.Walk(func(n ast.Node) bool {
-			if s, ok := n.(*ast.SelectorExpr); ok && s.Sel.Name == "Addrs" {
-				if id, isID := s.X.(*ast.Ident); isID && (id.Name == "wanInfo" || id.Name == "lanInfo") {
-					if _, isLen := p.Parent(s).(*ast.CallExpr); !isLen {
-						uses[id.Name]++
+			e, ok := n.(ast.Expr)
+			if !ok {
+				return true
+			}
+			switch e.(type) {
+			case *ast.SelectorExpr, *ast.Ident:
+			default:
+				return true
+			}
+			if call, isCall := p.Parent(e).(*ast.CallExpr); isCall && eng.NameIn(eng.CalleeName(info, call), "builtin.len") {
+				return true
+			}
+			// the definition of an alias is not itself a contribution to the result
+			if as, isAs := p.Parent(e).(*ast.AssignStmt); isAs {
+				for i, r := range as.Rhs {
+					if r == e && i < len(as.Lhs) && localDef(f, as.Lhs[i]) == e {
+						return true
+					}
+				}
+				for _, l := range as.Lhs {
+					if l == e {
+						return true
 					}
 				}
 			}
+			if se, isSel := p.Parent(e).(*ast.SelectorExpr); isSel && se.X == e {
+				return true // the struct variable inside wanInfo.Addrs, counted at the selector
+			}
+			if aliasOf(f, e, addrsOf(wanInfo)) {
+				uses["wan"]++
+			}
+			if aliasOf(f, e, addrsOf(lanInfo)) {
+				uses["lan"]++
+			}
 			return true
 		})
-		c.Check(K(f.Name, "union of addresses"), f.Pos(), uses["wanInfo"] >= 2 && uses["lanInfo"] >= 2, "both address sets contribute to the result (alone when the other is empty, merged otherwise)", "an address set is not used in the merge")
+		c.Check(K(f.Name, "union of addresses"), f.Pos(), uses["wan"] >= 2 && uses["lan"] >= 2, "both address sets contribute to the result (alone when the other is empty, merged otherwise)", "an address set is not used in the merge: uses wan="+itoa(uses["wan"])+" lan="+itoa(uses["lan"]))
 	}
 	c.Rule("R5")
 	c08Dual(c)
